@@ -61,6 +61,7 @@ contract("RelativeSequence.pad", params={"self": "ref:RelativeSequence", "paddin
              ("one_wait_appended_when_short", f"implies(old({WS}) < padding_length, len({M}) == old(len({M})) + 1 and fresh({M}[len({M}) - 1])"
                                                f" and {M}[len({M}) - 1].message_type == MessageType.WAIT and {M}[len({M}) - 1].time == padding_length - old({WS}))"),
              ("still_wf", WF_REL()),
+             ("duration_is_max", f"{WS} == max(old({WS}), padding_length)"),
          ],
          loops={"L0": dict(fingerprint="for msg in self._messages", inv=[
              ("length_so_far", f"current_length == wsum({M}, i)"),
@@ -99,10 +100,14 @@ contract("RelativeSequence.to_absolute_sequence", params={"self": "ref:RelativeS
          ensures=[("fresh_result", f"not is_none(result) and fresh(result) and fresh({RA}) and {FRESH_LIST(RA)}"),
                   ("wf_abs", WF_ABS(RA)),
                   ("sorted", SORTED(RA)),
+                  ("duration_bound", f"forall(0, len({RA}), lambda j: {RA}[j].time <= wsum({M}, len({M})))"),
+                  ("duration_reached", f"implies(len({M}) > 0, exists(0, len({RA}), lambda j: {RA}[j].time == wsum({M}, len({M}))))"),
                   ("source_untouched", f"len({M}) == old(len({M})) and forall(0, len({M}), lambda j: {Mj} == old({Mj}))")],
          loops={"L0": dict(fingerprint="for msg in self._messages", inv=[
              ("out_fresh", f"not is_none(absolute_sequence) and fresh(absolute_sequence) and fresh({AS}) and {FRESH_LIST(AS)}"),
              ("out_wf", WF_ABS(AS)),
-             ("clock", "current_point_in_time >= 0"),
+             ("clock", f"current_point_in_time >= 0 and current_point_in_time == wsum({M}, i)"),
+             ("bounded", f"forall(0, len({AS}), lambda j: {AS}[j].time <= current_point_in_time)"),
+             ("reached", f"implies(cap_message_exists and i > 0, exists(0, len({AS}), lambda j: {AS}[j].time == current_point_in_time))"),
          ])},
          props=["C04", "C16", "C11"])
